@@ -14,6 +14,7 @@ package main
 
 import (
 	"fmt"
+	"sort"
 	"strings"
 
 	"golang.org/x/tools/go/ssa"
@@ -74,11 +75,19 @@ func exploreRouter(c *Ctx, n int, maxRounds int) ([]rPath, error) {
 	if fn == nil {
 		return nil, fmt.Errorf("compiled handler closure not found")
 	}
-	var lastHandler *ssa.Function
-	for _, a := range fn.AnonFuncs {
-		if len(a.Params) == 1 && isConnPtr(a.Params[0].Type()) {
-			lastHandler = a
+	if c.routerMemo == nil {
+		c.routerMemo = map[[2]int][]rPath{}
+	}
+	if ps, ok := c.routerMemo[[2]int{n, maxRounds}]; ok {
+		return ps, nil
+	}
+	// the router's own last handler: the closure over a *Connection, created by the compiled handler (or a helper
+	// evaluated in place), that is alive when a route's handler chain is invoked
+	isLast := func(f *ssa.Function) bool {
+		if f == nil || f.Parent() == nil || len(f.Params) != 1 || !isConnPtr(f.Params[0].Type()) || f.Pkg == nil || f.Pkg != fn.Pkg {
+			return false
 		}
+		return f.Signature.Results().Len() == 1
 	}
 	nonNilErr := func(d string) SV { return SV{K: "ref", Known: true, Nil: false, Desc: d} }
 	wrapped := 0
@@ -141,9 +150,23 @@ func exploreRouter(c *Ctx, n int, maxRounds int) ([]rPath, error) {
 			}
 			adopt := func(conn SV) func(ev *symEval, st *symState) {
 				return func(ev *symEval, st *symState) {
-					cl, ok := st.heap["closure:"+extName(lastHandler)]
-					if !ok || lastHandler == nil {
-						st.trace = append(st.trace, Event{Kind: "model", What: "no-last-handler"})
+					var cl SV
+					found := 0
+					var keys []string
+					for k := range st.heap {
+						if strings.HasPrefix(k, "closure:") {
+							keys = append(keys, k)
+						}
+					}
+					sort.Strings(keys)
+					for _, k := range keys {
+						if v := st.heap[k]; isLast(v.Fn) {
+							cl = v
+							found++
+						}
+					}
+					if found != 1 {
+						st.trace = append(st.trace, Event{Kind: "model", What: fmt.Sprintf("no-last-handler (%d candidates)", found)})
 						return
 					}
 					outs := ev.call(cl.Fn, []SV{conn}, cl.Bind, st, 1)
@@ -201,6 +224,7 @@ func exploreRouter(c *Ctx, n int, maxRounds int) ([]rPath, error) {
 		}
 		out = append(out, rp)
 	}
+	c.routerMemo[[2]int{n, maxRounds}] = out
 	return out, nil
 }
 
@@ -351,4 +375,92 @@ func routerInvariants(p rPath, n int, which string) []string {
 		}
 	}
 	return bad
+}
+
+// c02Chain: the handler chain of a matched route is composed of every handler of the route, in order. The compiled
+// handler is evaluated for one matching route with k = 1..3 handlers; each middleware is an unknown function whose
+// application is recorded: the chain that is finally invoked must be m[0](m[1](...m[k-1](last)...)).
+func c02Chain(c *Ctx, r *Report, rule string) {
+	r.rule(rule, "chain composition (evaluation of the compiled route handler, one matching route with 1..3 handlers): the handler invoked for the route is middleware[0](middleware[1](…(middleware[k-1](router's last handler)))): every handler of the route is part of the chain, outermost first", 3)
+	fn := c.Fn("layer4.(RouteList).Compile$1")
+	name := "layer4.(RouteList).Compile$1"
+	if fn == nil {
+		r.bad(rule, name, "exists", "-", "compiled handler closure not found")
+		return
+	}
+	for k := 1; k <= 3; k++ {
+		key := fmt.Sprintf("handlers=%d", k)
+		sc := &Scenario{Name: key, MaxVisit: 12, MaxPaths: 2000,
+			Heap: map[string]SV{
+				"freevar:routes":       symSlice("routes", 1),
+				"freevar:next":         symRef("freevar:next", false),
+				"routes[0].middleware": symSlice("routes[0].middleware", int64(k)),
+			},
+			Params: map[string]SV{"p0": symRef("cx0", false)},
+		}
+		sc.Call = func(callee string, args []SV, ev *symEval, st *symState) (SV, bool) {
+			switch {
+			case callee == "invoke net.Conn.SetReadDeadline":
+				return symNil(), true
+			case callee == "dynamic" && len(args) == 1:
+				return symRef("app("+args[0].Desc+")", false), true
+			case strings.HasPrefix(callee, "invoke net.Conn.RemoteAddr"), strings.HasPrefix(callee, "invoke net.Addr.String"),
+				strings.HasPrefix(callee, "go.uber.org/zap."), strings.HasPrefix(callee, "(*go.uber.org/zap.Logger)"), callee == "time.Now", strings.HasPrefix(callee, "(time.Time)"):
+				return symOpaque(shortCallee(callee)), true
+			}
+			return SV{}, false
+		}
+		sc.Alts = func(callee string, args []SV, ev *symEval, st *symState) []CallAlt {
+			switch {
+			case callee == "layer4.(*MatcherSets).AnyMatch":
+				return []CallAlt{{Ret: SV{K: "tuple", Desc: "anymatch", Elems: []SV{symBool(true), symNil()}}, Note: "T"}}
+			case callee == "invoke layer4.Handler.Handle":
+				return []CallAlt{{Ret: symNil(), Note: "terminal"}}
+			}
+			return nil
+		}
+		paths, err := evalPaths(fn, sc)
+		if err != nil || len(paths) == 0 {
+			r.bad(rule, name, key, "-", fmt.Sprintf("undecided: %v", err))
+			continue
+		}
+		var problems []string
+		for _, p := range paths {
+			if p.Outcome != "return" {
+				problems = append(problems, "undecided path: "+p.Outcome)
+				continue
+			}
+			var idxs []int
+			var argsSeen []string
+			recv := ""
+			for _, e := range p.Trace {
+				if e.Kind != "call" {
+					continue
+				}
+				if strings.HasPrefix(e.What, "dynamic ") && strings.Contains(e.What, "middleware[") && len(e.Args) == 1 {
+					idxs = append(idxs, routeIndexOf(e.What))
+					argsSeen = append(argsSeen, e.Args[0])
+				}
+				if e.What == "invoke layer4.Handler.Handle" && len(e.Args) > 0 && e.Args[0] != "freevar:next" {
+					recv = e.Args[0]
+				}
+			}
+			good := len(idxs) == k && recv != ""
+			for j := 0; good && j < k; j++ {
+				if idxs[j] != k-1-j {
+					good = false
+				}
+				if j > 0 && argsSeen[j] != "app("+argsSeen[j-1]+")" {
+					good = false
+				}
+			}
+			if good && recv != "app("+argsSeen[k-1]+")" {
+				good = false
+			}
+			if !good {
+				problems = append(problems, fmt.Sprintf("the chain invoked for a route with %d handlers applies the handlers %v (innermost first) and runs %s: a handler of the route is left out or applied out of order (e.g. a tls handler skipped: the next handler reads ciphertext)", k, idxs, recv))
+			}
+		}
+		r.check(len(problems) == 0, rule, name, key, "-", fmt.Sprintf("%d path(s)", len(paths)), strings.Join(dedup(problems), "; "))
+	}
 }
